@@ -1,0 +1,29 @@
+package js_test
+
+import (
+	"context"
+	"strings"
+	"testing"
+
+	"github.com/inspirer/textmapper/parsers/js"
+)
+
+// The parser checks for cancellation every 512 shifts, including those made by lookaheads.
+// The input is arranged so that the first check happens while looking ahead for an arrow function.
+func TestCancelInLookahead(t *testing.T) {
+	input := strings.Repeat("a;\n", 254) + "(b) => 1;\n"
+	ctx, cancel := context.WithCancel(context.Background())
+	cancel()
+
+	var s js.TokenStream
+	var p js.Parser
+	listener := func(nt js.NodeType, offset, endoffset int) {}
+	s.Init(input, listener)
+	p.Init(func(se js.SyntaxError) bool {
+		t.Errorf("unexpected syntax error at %v", se.Offset)
+		return true
+	}, listener)
+	if err := p.ParseModule(ctx, &s); err != context.Canceled {
+		t.Errorf("ParseModule() = %v, want: %v", err, context.Canceled)
+	}
+}
